@@ -199,7 +199,8 @@ pub const ITER_PANIC_MSG: &str = "bvsim: injected iterator panic";
 pub struct SimIter<'a> {
     pub items: &'a [bool],
     pub pos: usize,
-    /// 0 exact, 1 (0,None), 2 (0,Some(n)), 3 (k<n,None), 4 (n,Some(n+j)), 5 hostile: lower bound = raw (a lie)
+    /// 0 exact, 1 (0,None), 2 (0,Some(n)), 3 (k<n,None), 4 (n,Some(n+j)), 6 (0,Some(MAX)), 7 (n,Some(MAX)),
+    /// 5 hostile: lower bound = raw (a lie)
     pub hint_shape: u8,
     pub hint_raw: u64,
     pub fused: bool,
@@ -250,6 +251,9 @@ impl Iterator for SimIter<'_> {
             2 => (0, Some(rem)),
             3 => (if rem == 0 { 0 } else { (self.hint_raw as usize) % rem }, None),
             4 => (rem, Some(rem.saturating_add((self.hint_raw % 100) as usize))),
+            // legal: an upper bound may be arbitrarily loose
+            6 => (0, Some(usize::MAX)),
+            7 => (rem, Some(usize::MAX)),
             _ => (self.hint_raw as usize, None),
         }
     }
